@@ -1419,9 +1419,19 @@ impl<B> StreamRef<B> {
 
         let mut stream = me.store.resolve(self.opaque.key);
 
+        let requested = stream.requested_send_capacity;
+
         me.actions
             .send
-            .reserve_capacity(capacity, &mut stream, &mut me.counts)
+            .reserve_capacity(capacity, &mut stream, &mut me.counts);
+
+        // Capacity that is given back goes to the streams waiting for it, which
+        // are then scheduled to send: the connection task has to be told.
+        if stream.requested_send_capacity < requested {
+            if let Some(task) = me.actions.task.take() {
+                task.wake();
+            }
+        }
     }
 
     /// Returns the stream's current send capacity.
